@@ -349,6 +349,11 @@ func c13List(c *core.C) {
 	ids := []string{"na", "nb", "nc", "nd"}
 	mk := func(r *rand.Rand, id string) *sbom.Node { return gen.Node(r, id, o) }
 	base := gen.RandomNodeList(r, gen.GraphOpts{Universe: ids, EdgeTypes: c09Types, PNode: 1, PEdge: 0.4, PRoot: 0.6, NodeMaker: mk})
+	if r.Intn(2) == 0 {
+		// several edge records per source and type: their relative order is part of "the order of edges"
+		base = gen.SplitPresentation(r, base)
+		c.Cover("list-with-several-edge-records-per-source-and-type")
+	}
 	perm := gen.ShuffledPresentation(r, base)
 	for i, n := range perm.Nodes {
 		perm.Nodes[i] = permuteNode(r, n)
